@@ -2,14 +2,15 @@
    Only statements + `exact` of lemmas proved in coq/Lang/Mini*Proofs.v, each followed by Print Assumptions.
 
    wf            declarative static semantics of the core (Lang/MiniTyping.v) = the specification
-   check         the algorithm of parser+resolver+typechecker of the PINNED tree (Lang/MiniCheck.v, quirks on)
-   check_patched the same algorithm with the four proposed patches (quirks off)
+   check         the algorithm of parser+resolver+typechecker as it is in /repo now (Lang/MiniCheck.v, `current`)
+   check_pinned  the same algorithm with the four defects of the pinned tree (quirk switches on)
    inject        Coq's own fault injector, the one the harness runs (Lang/MiniMutate.v)
 
-   Status: the full statement `check p = [] -> wf p` is FALSE of the pinned tree (C04_check_sound_refuted, one
-   witness per defect in C04_each_quirk_unsound; all five replayed on the real frontend by checks/c04.py);
-   C04_check_sound_partial is what holds of the pinned tree, C04_check_sound_patched is the full statement for
-   the patched tree. *)
+   Status: FULL.  The four defects found by this verification (gleich/ungleich on operands without a type, return of
+   an expression without a type, typechecker re-resolving names by name + loop bounds resolved in the loop body,
+   private fields of a Kombination that is not itself imported) were repaired in /repo by ec4b99d, 328cc02, 4309fac,
+   581329c; the model was re-synchronised and `check p = [] <-> wf p` holds.  The witnesses of the defects stay as
+   regression facts about `check_pinned`; checks/c04.py replays them on the real frontend on every run. *)
 From Coq Require Import List Arith Bool.
 Import ListNotations.
 From DDP Require Import Lang.MiniSyntax Lang.MiniTyping Lang.MiniTypingProofs Lang.MiniCheck Lang.MiniGuard Lang.MiniCheckProofs
@@ -20,9 +21,28 @@ Theorem C04_wfb_decides_wf : forall p, wfb p = true <-> wf p.
 Proof. exact wfb_iff. Qed.
 Print Assumptions C04_wfb_decides_wf.
 
-(* GENERAL (every setting Q of the four quirk switches): the algorithm is sound on the programs on which the
-   switched-on quirks do not matter (`guard Q`, a syntactic predicate that is `true` everywhere for `patched`) and
-   complete on shadow-free programs; the check identifies on every run which setting the frontend in /repo is *)
+(* FULL: no diagnostic => well-formed, i.e. every ill-formed core program gets >= 1 diagnostic *)
+Theorem C04_check_sound : forall p, check p = [] -> wf p.
+Proof. exact check_sound. Qed.
+Print Assumptions C04_check_sound.
+
+Theorem C04_illformed_rejected : forall p, ~ wf p -> check p <> [].
+Proof. exact (fun p H E => H (check_sound p E)). Qed.
+Print Assumptions C04_illformed_rejected.
+
+(* non-vacuity direction, FULL: every well-formed core program is accepted; acceptance = well-formedness *)
+Theorem C04_check_complete : forall p, wf p -> check p = [].
+Proof. exact check_complete. Qed.
+Print Assumptions C04_check_complete.
+
+Theorem C04_check_iff_wf : forall p, check p = [] <-> wf p.
+Proof. exact check_iff_wf. Qed.
+Print Assumptions C04_check_iff_wf.
+
+(* GENERAL (every setting Q of the four quirk switches): sound on the programs on which the switched-on quirks do not
+   matter (`guard Q`, a syntactic predicate that is `true` everywhere for `patched`), complete on shadow-free
+   programs, and complete everywhere once the typechecker uses the resolver's bindings and fields are protected by
+   type.  The check identifies on every run which setting the frontend in /repo is. *)
 Theorem C04_check_with_sound : forall Q p, check_with Q p = [] -> guard Q p = true -> wf p.
 Proof. exact check_with_sound. Qed.
 Print Assumptions C04_check_with_sound.
@@ -31,53 +51,10 @@ Theorem C04_check_with_complete : forall Q p, wf p -> shadow_free p = true -> ch
 Proof. exact check_with_complete. Qed.
 Print Assumptions C04_check_with_complete.
 
-(* FULL (patched tree): no diagnostic => well-formed, i.e. every ill-formed core program gets >= 1 diagnostic *)
-Theorem C04_check_sound_patched : forall p, check_patched p = [] -> wf p.
-Proof. exact check_patched_sound. Qed.
-Print Assumptions C04_check_sound_patched.
-
-Theorem C04_illformed_rejected_patched : forall p, ~ wf p -> check_patched p <> [].
-Proof. exact (fun p H E => H (check_patched_sound p E)). Qed.
-Print Assumptions C04_illformed_rejected_patched.
-
-(* REFUTED (pinned tree): an ill-formed program without any diagnostic *)
-Theorem C04_check_sound_refuted : exists p, check p = [] /\ ~ wf p.
-Proof. exact check_sound_refuted. Qed.
-Print Assumptions C04_check_sound_refuted.
-
-(* each of the four quirks alone makes the frontend unsound (the loop-bound witness needs two of them); with all
-   four patched the five witnesses are rejected *)
-Theorem C04_each_quirk_unsound :
-  check_with (only 0) w_void_eq = [] /\ check_with (only 1) w_void_ret = [] /\
-  check_with (only 2) w_init_self = [] /\ check_with (only 3) w_priv_field = [] /\
-  check_with void_eq_and_by_name w_for_scope = [] /\
-  Forall (fun p => check_patched p <> []) [w_void_eq; w_void_ret; w_init_self; w_priv_field; w_for_scope].
-Proof. exact each_quirk_unsound. Qed.
-Print Assumptions C04_each_quirk_unsound.
-
-Theorem C04_witnesses_illformed :
-  Forall (fun p => check p = [] /\ wfb p = false) [w_void_eq; w_void_ret; w_init_self; w_priv_field; w_for_scope].
-Proof. exact witnesses_accepted_illformed. Qed.
-Print Assumptions C04_witnesses_illformed.
-
-(* PARTIAL (pinned tree): sound on the programs on which none of the quirks matters (a syntactic class) *)
-Theorem C04_check_sound_partial : forall p, check p = [] -> quirk_free p = true -> wf p.
-Proof. exact check_sound_partial. Qed.
-Print Assumptions C04_check_sound_partial.
-
-(* non-vacuity direction: well-formed programs without shadowing are accepted (pinned and patched) *)
-Theorem C04_check_complete_core : forall p, wf p -> shadow_free p = true -> check p = [].
-Proof. exact check_complete_core. Qed.
-Print Assumptions C04_check_complete_core.
-
-Theorem C04_check_patched_complete_core : forall p, wf p -> shadow_free p = true -> check_patched p = [].
-Proof. exact check_patched_complete_core. Qed.
-Print Assumptions C04_check_patched_complete_core.
-
-(* ... and the restriction is needed for the pinned tree: a well-formed program it rejects *)
-Theorem C04_check_complete_refuted : exists p, wf p /\ check p <> [] /\ check_patched p = [].
-Proof. exact check_complete_refuted. Qed.
-Print Assumptions C04_check_complete_refuted.
+Theorem C04_check_with_complete_full : forall Q p, q_tc_by_name Q = false -> q_field_unimported Q = false ->
+  wf p -> check_with Q p = [].
+Proof. exact check_with_complete_full. Qed.
+Print Assumptions C04_check_with_complete_full.
 
 (* every mutant of every fault class is ill-formed: the negative corpus of the harness really is negative *)
 Theorem C04_inject_breaks_wf : forall fc s p, wf p -> site_ok fc s p -> ~ wf (inject fc s p).
@@ -88,12 +65,47 @@ Theorem C04_mutants_illformed : forall fc p p', In p' (mutants fc p) -> ~ wf p'.
 Proof. exact mutants_illformed. Qed.
 Print Assumptions C04_mutants_illformed.
 
+Theorem C04_injected_fault_rejected : forall fc s p, wf p -> site_ok fc s p -> check (inject fc s p) <> [].
+Proof. exact (fun fc s p Hwf Hs E => inject_breaks_wf fc s p Hwf Hs (check_sound _ E)). Qed.
+Print Assumptions C04_injected_fault_rejected.
+
+(* ---- regression facts about the pinned tree (before the repairs) -------------------------------- *)
+(* it accepted ill-formed programs: five witnesses, each ill-formed, accepted then, rejected now *)
+Theorem C04_pinned_witnesses :
+  Forall (fun p => check_pinned p = [] /\ wfb p = false /\ check p <> [])
+         [w_void_eq; w_void_ret; w_init_self; w_priv_field; w_for_scope].
+Proof. exact witnesses_accepted_illformed. Qed.
+Print Assumptions C04_pinned_witnesses.
+
+(* each of the four defects alone made the frontend unsound (the loop-bound witness needs two of them) *)
+Theorem C04_each_quirk_unsound :
+  check_with (only 0) w_void_eq = [] /\ check_with (only 1) w_void_ret = [] /\
+  check_with (only 2) w_init_self = [] /\ check_with (only 3) w_priv_field = [] /\
+  check_with void_eq_and_by_name w_for_scope = [] /\
+  Forall (fun p => check_patched p <> []) [w_void_eq; w_void_ret; w_init_self; w_priv_field; w_for_scope].
+Proof. exact each_quirk_unsound. Qed.
+Print Assumptions C04_each_quirk_unsound.
+
+(* it was sound only where the defects do not matter, and rejected a well-formed program (late shadowing) that is
+   accepted now *)
+Theorem C04_pinned_sound_partial : forall p, check_pinned p = [] -> quirk_free p = true -> wf p.
+Proof. exact check_pinned_sound_partial. Qed.
+Print Assumptions C04_pinned_sound_partial.
+
+Theorem C04_pinned_complete_refuted : exists p, wf p /\ check_pinned p <> [] /\ check p = [].
+Proof. exact check_pinned_complete_refuted. Qed.
+Print Assumptions C04_pinned_complete_refuted.
+
 (* ---- non-vacuity ------------------------------------------------------------------------------- *)
 Example C04_ex_hypotheses :
-  wf ex_ok /\ check ex_ok = [] /\ check_patched ex_ok = [] /\ quirk_free ex_ok = true /\ shadow_free ex_ok = true.
+  wf ex_ok /\ check ex_ok = [] /\ check_pinned ex_ok = [] /\ quirk_free ex_ok = true /\ shadow_free ex_ok = true.
 Proof. split; [apply wfb_iff |]; repeat split; vm_compute; reflexivity. Qed.
 
-(* every fault class has a site in the example program or in a two-line variant of it *)
+(* a well-formed program outside the shadow-free class (accepted now, rejected by the pinned tree) *)
+Example C04_ex_shadowing : wf w_late_shadow /\ shadow_free w_late_shadow = false /\ check w_late_shadow = [].
+Proof. split; [apply wfb_iff |]; repeat split; vm_compute; reflexivity. Qed.
+
+(* every fault class has a site in the example program *)
 Example C04_ex_sites : forallb (fun fc => Nat.ltb 0 (length (mutants fc ex_ok))) all_faults = true.
 Proof. vm_compute. reflexivity. Qed.
 
@@ -104,7 +116,7 @@ Proof.
   split; vm_compute; reflexivity.
 Qed.
 
-Example C04_ex_illformed_rejected : ~ wf (inject FUndeclared 0 ex_ok) /\ check_patched (inject FUndeclared 0 ex_ok) <> [].
+Example C04_ex_illformed_rejected : ~ wf (inject FUndeclared 0 ex_ok) /\ check (inject FUndeclared 0 ex_ok) <> [].
 Proof.
   split.
   - intros H; apply wfb_iff in H; vm_compute in H; discriminate H.
